@@ -385,6 +385,12 @@ func (e *Encoder) loopHeader(li *loopInfo, b *ssa.BasicBlock, st *State, pc stri
 			}
 			c.declare(n, srt)
 			c.memSorts[k] = srt
+			if !e.nonLocalKeys[k] {
+				// every store to this map in the loop goes through an object allocated by this function:
+				// cells of objects that existed at function entry are unchanged by the loop.
+				cur := st.get(c, k, srt)
+				c.assume(fmt.Sprintf("(forall ((p!f Loc)) (! (=> (< (rootof p!f) ctr0) (= (select %s p!f) (select %s p!f))) :pattern ((select %s p!f))))", n, cur, n))
+			}
 			st.mem[k] = n
 		}
 		e.bumpCtr(st)
